@@ -100,6 +100,9 @@ def tree_hash():
     return h.hexdigest()[:20]
 
 
+COVERAGE_GUARD = re.compile(r'checked(\[.*\])?$')
+
+
 def load_baseline(prop):
     p = os.path.join(VERIF, 'baseline', f'{prop}.json')
     if os.path.exists(p):
@@ -138,6 +141,7 @@ def finish(prop, spec, results, bounded, tier, seed, t0, verbose=False, partial=
             undecided.append((r['unit'], r.get('error', '')))
         for v in r['verdicts']:
             v['unit'] = r['unit']
+            v['unit_unknown_used'] = r.get('info', {}).get('unknown_used') or []
             verdicts.append(v)
             solver_time += v['seconds']
             max_q = max(max_q, v['seconds'])
@@ -161,6 +165,12 @@ def finish(prop, spec, results, bounded, tier, seed, t0, verbose=False, partial=
         elif v['status'] == 'refuted':
             if tag == 'helper':
                 drift.append(v)
+            elif COVERAGE_GUARD.search(v['name']) and v.get('unit_unknown_used'):
+                # a coverage guard counts the paths / call sites the contract is written for.  When the unit ran into code the engine has
+                # no model for (over-approximated as unknown), too few of them means the contract could not SEE the code - undecided.
+                # With everything interpreted the same guard failing means the code really lacks them, and stays a violation.
+                undecided.append((v['name'], 'coverage guard not met while the unit used unmodelled state/callables: '
+                                  + ', '.join(v['unit_unknown_used'][:5])))
             else:
                 violations.append(v)
         elif tree_changed and v['name'] in base_proved:
